@@ -86,6 +86,39 @@ theorem writes_confined_to_configured (P : Paths) (h : List Entry) :
       · right; right; right; right; right; right; exact ⟨n, hn1, hn2, by rw [h1, h2]⟩
       · right; right; right; right; left; rw [h1, h2]; simp [parent]
 
+/-- `writes_confined_to_configured` with everything `file_dict_name` guarantees about the child's
+name kept: non-empty, no `/`, neither `.` nor `..`, ending in `%`. -/
+theorem writes_confined_to_configured_strong (P : Paths) (h : List Entry) :
+    ∀ e ∈ traceAll P h, ∀ p, e.written = some p →
+      p = P.userDict ∨ p = parent P.userDict ∨ p = P.stats ∨ p = parent P.stats ∨
+      p = P.fileDir ∨ p = parent P.fileDir ∨
+      ∃ n, n ≠ [] ∧ '/' ∉ n ∧ n ≠ ['.', '.'] ∧ n ≠ ['.'] ∧ n.getLast? = some '%' ∧ p = P.fileDir ++ [n] := by
+  intro e he p hp
+  rcases writes_confined P h e he p hp with h1 | h1 | h1 | h1 | ⟨doc, h1⟩
+  · exact Or.inl h1
+  · exact Or.inr (Or.inl h1)
+  · exact Or.inr (Or.inr (Or.inl h1))
+  · exact Or.inr (Or.inr (Or.inr (Or.inl h1)))
+  · obtain ⟨hs, hdd, hd, hl⟩ := fileDictName_single_component doc
+    rcases hl with hl | hl
+    · have h2 : fileDictPath P doc = P.fileDir := by
+        simp [fileDictPath, hl, joinName, components, splitSlash]
+      rcases h1 with h1 | h1
+      · right; right; right; right; left; rw [h1, h2]
+      · right; right; right; right; right; left; rw [h1, h2]
+    · have hne : fileDictName doc ≠ [] := by intro h0; rw [h0] at hl; simp at hl
+      have h2 : fileDictPath P doc = P.fileDir ++ [fileDictName doc] := by
+        have hh : (fileDictName doc).head? ≠ some '/' := by
+          intro hh
+          cases hfd : fileDictName doc with
+          | nil => exact hne hfd
+          | cons a as => rw [hfd] at hh hs; simp at hh; subst hh; simp at hs
+        simp [fileDictPath, joinName, hh, components, splitSlash_of_no_slash _ hs, hne, hd]
+      rcases h1 with h1 | h1
+      · right; right; right; right; right; right
+        exact ⟨_, hne, hs, hdd, hd, hl, by rw [h1, h2]⟩
+      · right; right; right; right; left; rw [h1, h2]; simp [parent]
+
 /-! ### non-vacuity and hostile paths -/
 
 def str (s : String) : List Char := s.toList
@@ -109,6 +142,14 @@ example :
     (traceAll P h).contains (.listen [127, 0, 0, 1] 4000) = true := by
   decide
 
+/-- `no_network_effect` is true BY CONSTRUCTION of `trace` (no entry point lists a `connect`,
+`resolve` or `sendDatagram`; the content is the harness comparing `trace` with strace). What the
+kernel does check: the predicate is not constantly false — the three network effects exist in `Eff`
+and are recognised — and a trace that contains one is rejected. -/
+example : (Eff.connect [93, 184, 216, 34] 443).isNetwork = true ∧ (Eff.resolve ['x']).isNetwork = true ∧
+    (Eff.sendDatagram [8, 8, 8, 8] 53).isNetwork = true ∧
+    ¬ ∀ e ∈ [Eff.accept, .connect [93, 184, 216, 34] 443], e.isNetwork = false := by decide
+
 /-! ## from the configured STRING to the path that is written -/
 
 /-- `~/rest` is the home directory followed by `rest` -/
@@ -124,6 +165,16 @@ theorem tilde_alone (home cwd : Path) : resolvePath home cwd ['~'] = home := by
 theorem absolute_unchanged (home cwd : Path) (p : List Char) :
     resolvePath home cwd ('/' :: p) = components p := by
   simp [resolvePath, components_cons_slash]
+
+/-- the third case of `try_resolve`: anything that is neither absolute nor starts with the component
+`~` is joined to the current directory (`~user/…` included) -/
+theorem relative_joined (home cwd : Path) (p : List Char)
+    (h1 : p.head? ≠ some '/') (h2 : p ≠ ['~']) (h3 : p.take 2 ≠ ['~', '/']) :
+    resolvePath home cwd p = cwd ++ components p := by
+  simp [resolvePath, h1, h2, h3]
+
+example : resolvePath [['h']] [['w']] ['~', 'u', '/', 'x'] = [['w']] ++ components ['~', 'u', '/', 'x'] :=
+  relative_joined _ _ _ (by decide) (by decide) (by decide)
 
 /-- **Writes are confined to the RESOLVED configured paths.** For every environment, current
 directory and settings object the server accepts, every path a handler creates, truncates, appends
@@ -164,6 +215,20 @@ the statistics file stays at its default -/
 example : (fromLspConfig envH cwdW cfgMixed).map (fun P => (P.userDict, P.fileDir, P.stats)) =
     some ([['h'], ['d']], [['a'], ['s']], (defaultPaths envH).stats) := by
   decide
+
+/-- non-vacuity of `resolved_paths_confined`: `cfgMixed` is accepted, the user-dictionary and
+per-document-dictionary creations are in the trace, and the theorem (not evaluation) yields that
+`/h/d` and `/a/s/x%` are allowed writes -/
+example : ∃ P, fromLspConfig envH cwdW cfgMixed = some P ∧
+    Eff.createFile [['h'], ['d']] ∈ traceAll P [.addUser ['/', 'x'] true false] ∧
+    Eff.createFile [['a'], ['s'], ['x', '%']] ∈ traceAll P [.addFile ['/', 'x'] true false] ∧
+    AllowedWrite envH cwdW cfgMixed [['h'], ['d']] ∧
+    AllowedWrite envH cwdW cfgMixed [['a'], ['s'], ['x', '%']] :=
+  ⟨_, rfl, by decide, by decide,
+    resolved_paths_confined envH cwdW cfgMixed _ rfl [.addUser ['/', 'x'] true false]
+      (.createFile [['h'], ['d']]) (by decide) _ rfl,
+    resolved_paths_confined envH cwdW cfgMixed _ rfl [.addFile ['/', 'x'] true false]
+      (.createFile [['a'], ['s'], ['x', '%']]) (by decide) _ rfl⟩
 
 /-- relative ↦ below the current directory; `~user` is NOT expanded; an empty `userDictPath`
 keeps the default but an empty `statsPath` makes the current directory the dictionary directory;
